@@ -2,9 +2,10 @@
 //!
 //! Protocol over the Unix socket named by VERIF_COORD_SOCK (line based, payloads length-prefixed):
 //!   -> HELLO <pid> <nargs>\n  then one line per argument
-//!   <- READ ALL\n | READ <k>\n
+//!   <- READ ALL\n | READ ALL <delay_ms>\n | READ <k>\n
 //!   -> GOT <n> <eof:0|1>\n  then n bytes (what was read from stdin)
-//!   <- FINISH <code|-signal> <out_len> <err_len>\n  then the stdout bytes and the stderr bytes
+//!   <- FINISH <code|-signal> <out_len> <err_len> [<split> <pause_ms>]\n  then the stdout bytes and the stderr bytes
+//!      (stdout is written up to <split>, flushed, and the rest follows after the pause)
 //! Without VERIF_COORD_SOCK it behaves like a prover that gives up.
 use std::io::{BufRead, BufReader, Read, Write};
 use std::os::unix::net::UnixStream;
@@ -42,6 +43,12 @@ fn main() {
             std::io::stdin().read_to_end(&mut input).ok();
             eof = true;
         }
+        ["READ", "ALL", ms] => {
+            // a prover that is slow to start reading its input
+            std::thread::sleep(std::time::Duration::from_millis(ms.parse().unwrap_or(0)));
+            std::io::stdin().read_to_end(&mut input).ok();
+            eof = true;
+        }
         ["READ", k] => {
             let k: usize = k.parse().unwrap_or(0);
             let mut stdin = std::io::stdin();
@@ -69,14 +76,21 @@ fn main() {
         std::process::exit(99);
     }
     let words: Vec<&str> = line.split_whitespace().collect();
-    if let ["FINISH", code, out_len, err_len] = words.as_slice() {
+    if let ["FINISH", code, out_len, err_len, rest @ ..] = words.as_slice() {
         let code: i32 = code.parse().unwrap_or(1);
         let mut out = vec![0u8; out_len.parse().unwrap_or(0)];
         let mut err = vec![0u8; err_len.parse().unwrap_or(0)];
         r.read_exact(&mut out).unwrap();
         r.read_exact(&mut err).unwrap();
         // stop reading stdin for good before answering, like a process about to exit
-        let _ = std::io::stdout().write_all(&out);
+        let split: usize = rest.first().and_then(|s| s.parse().ok()).unwrap_or(out.len()).min(out.len());
+        let pause_ms: u64 = rest.get(1).and_then(|s| s.parse().ok()).unwrap_or(0);
+        let _ = std::io::stdout().write_all(&out[..split]);
+        let _ = std::io::stdout().flush();
+        if split < out.len() {
+            std::thread::sleep(std::time::Duration::from_millis(pause_ms));
+            let _ = std::io::stdout().write_all(&out[split..]);
+        }
         let _ = std::io::stdout().flush();
         let _ = std::io::stderr().write_all(&err);
         let _ = std::io::stderr().flush();
